@@ -306,6 +306,35 @@ func (vc *FnVC) u256Method(in *ssa.Call, m string, args []ssa.Value) bool {
 	case "Set":
 		set(get(1))
 		vc.setRes(in, intT(z))
+	case "SetBytes1", "SetBytes2", "SetBytes3", "SetBytes4", "SetBytes5", "SetBytes6", "SetBytes7", "SetBytes8":
+		// big-endian value of the first N bytes of the slice (the real method indexes them: bounds)
+		n := int(m[len(m)-1] - '0')
+		b := vc.val(args[1])
+		c, s := vc.elemComp(types.Typ[types.Uint8])
+		vc.obAssert("bounds", "bounds@"+vc.srcText(in), fmt.Sprintf("uint256.%s needs %d bytes", m, n), fmt.Sprintf("(>= (s.len %s) %d)", b.S, n), in.Pos())
+		h := vc.heapGet(c, s)
+		var parts []string
+		for i := 0; i < n; i++ {
+			parts = append(parts, fmt.Sprintf("(* (select (select %s (s.arr %s)) (+ (s.off %s) %d)) %s)", h, b.S, b.S, i, pow2(8*(n-1-i)).String()))
+		}
+		v := "(+ " + strings.Join(parts, " ") + " 0)"
+		set(v)
+		vc.setRes(in, intT(z))
+	case "SetBytes":
+		// z = big-endian value of the slice (same abstract function as for big.Int), reduced
+		// modulo 2^256 (uint256 keeps the low 32 bytes of a longer slice)
+		b := vc.val(args[1])
+		c, s := vc.elemComp(types.Typ[types.Uint8])
+		vc.decl("bebytes", "(declare-fun bebytes ((Array Int Int) Int Int) Int)")
+		v := vc.defineNamed("bev", "Int", fmt.Sprintf("(bebytes (select %s (s.arr %s)) (s.off %s) (s.len %s))", vc.heapGet(c, s), b.S, b.S, b.S))
+		vc.fact(fmt.Sprintf("(>= %s 0)", v))
+		vc.fact(fmt.Sprintf("(=> (= (s.len %s) 0) (= %s 0))", b.S, v))
+		vc.fact(fmt.Sprintf("(=> (= (s.len %s) 1) (= %s (select (select %s (s.arr %s)) (s.off %s))))", b.S, v, vc.heapGet(c, s), b.S, b.S))
+		for _, k := range []int{1, 8, 20, 32} {
+			vc.fact(fmt.Sprintf("(=> (<= (s.len %s) %d) (< %s %s))", b.S, k, v, pow2(8*k).String()))
+		}
+		set(fmt.Sprintf("(mod %s %s)", v, two256))
+		vc.setRes(in, intT(z))
 	case "SetOne":
 		set("1")
 		vc.setRes(in, intT(z))
